@@ -1,8 +1,9 @@
+import TplModel.Props.Loader
 import TplModel.Props.RenderProps
 import TplModel.Props.C05refine
 /-! # C03 — conditional chains render exactly the first true branch
 
-OBLIGATIONS: RN.exec_refines_ref, RN.execute_refines, RN.execute_flags, RN.Props.chain_refines_spec, RN.Props.chain_first_true, RN.Props.chain_none_true, RN.Props.unselected_evaluates_only_with, RN.Props.unselected_after_evaluates_only_with, RN.Props.unselected_before_evaluates_with_and_cond, RN.Props.orphan_else_is_error, RN.Props.cond_error_propagates
+OBLIGATIONS: RN.exec_refines_ref, RN.execute_refines, RN.execute_flags, RN.Props.chain_refines_spec, RN.Props.chain_first_true, RN.Props.chain_none_true, RN.Props.unselected_evaluates_only_with, RN.Props.unselected_after_evaluates_only_with, RN.Props.unselected_before_evaluates_with_and_cond, RN.Props.orphan_else_is_error, RN.Props.cond_error_propagates, EN.loaded_manager_ok, EN.execute_refines_loaded, EN.exec_refines_loaded
 
 The chain semantics is that of the structural specification `RN.refNode` (condition phase: `if` evaluates its own
 condition; `else-if`/`else` consult the recorded result of the previous sibling tag, are skipped — recording
